@@ -236,3 +236,66 @@ def _self_check():
 
 
 _self_check()
+
+
+# ---------------------------------------------------------------------------
+# integer-typed / tuple record containers (the quantifier says "every record") and dt containers
+
+INT_KINDS = ["int64", "int32", "int16", "int8", "uint8", "uint16", "pyint-list", "tuple"]
+
+
+def int_record(a, kind):
+    """(container, exact float64 values) of the record `a` in an integer-typed (or tuple) container.
+    int8/16/32: gen.narrow_int (full range of the dtype, the most negative sample is the dtype's minimum);
+    uint8/uint16: |a| scaled to the full unsigned range (the negation of such a sample does not exist in the dtype);
+    int64 / pyint-list: a scaled to +-1e6 and rounded; tuple: python floats, values unchanged."""
+    from pbt import gen
+    a = np.asarray(a, dtype=float)
+    if kind == "tuple":
+        return tuple(float(x) for x in a), a.copy()
+    if kind in ("int8", "int16", "int32"):
+        return gen.narrow_int(a, kind)
+    peak = float(np.max(np.abs(a))) if a.size else 0.0
+    if kind in ("uint8", "uint16"):
+        top = float(np.iinfo(kind).max)
+        q = np.round(np.abs(a) * (top / peak)) if peak > 0 else np.zeros_like(a)
+        c = np.array(np.clip(q, 0, top), dtype=kind)
+        return c, np.array(c, dtype=float)
+    q = np.round(a * (1e6 / peak)) if peak > 0 else np.zeros_like(a)
+    c = np.array(q, dtype=np.int64)
+    if kind == "pyint-list":
+        return [int(x) for x in c], np.array(c, dtype=float)
+    return c, np.array(c, dtype=float)
+
+
+DT_KINDS = [None, None, "f64", "f32", "0d", "0d32"]
+
+
+def dt_argument(dt, kind):
+    """(argument to pass, exact float value of that argument): python float | np.float64 | np.float32 | 0-d arrays."""
+    dt = float(dt)
+    if kind in ("f32", "0d32"):
+        dt = float(np.float32(dt))
+        return (np.float32(dt) if kind == "f32" else np.array(dt, dtype=np.float32)), dt
+    if kind == "f64":
+        return np.float64(dt), dt
+    if kind == "0d":
+        return np.array(dt), dt
+    return dt, dt
+
+
+def tol_n(n):
+    """Rounding model for two mathematically equal runs of an n-step linear recurrence: 1e-10 + 16 eps n of the
+    energy-consistent robust scale (each step rounds the state by <= 4 eps of its energy norm; a free vibration never gains
+    energy; two runs; factor 2)."""
+    return 1e-10 + 16 * EPS * n
+
+
+def escales(a, dt, T, xi, ru, rv):
+    """Energy-consistent robust scales per row from library series: S_u = max(s_u, s_v/w), S_v = max(s_v, w s_u),
+    S_a = 2 xi w S_v + w^2 S_u (s_u, s_v: peaks floored by the response to one step of the largest sample)."""
+    su, sv, _ = ref.lib_scales(a, dt, T, xi, ru, rv)
+    w = 2 * np.pi / np.asarray(T, dtype=float)
+    Su = np.maximum(su, sv / w)
+    Sv = np.maximum(sv, w * su)
+    return Su, Sv, 2 * xi * w * Sv + w ** 2 * Su
